@@ -219,9 +219,13 @@ func runF(op string, in M) (M, M) {
 		}
 		return out, cert
 	case "ecb.par":
-		res, crashed := vChild("TestVerifFirstUse", in)
-		if crashed != "" {
-			res = crashed
+		res := ""
+		for try := 0; try < 6 && res == ""; try++ { // each child is a fresh process: a fresh chance to collide during first use
+			var crashed string
+			res, crashed = vChild("TestVerifFirstUse", in)
+			if crashed != "" {
+				res = crashed
+			}
 		}
 		return M{"panic": res}, M{}
 	case "ecb.OnCurve":
@@ -244,7 +248,7 @@ func TestVerifFirstUse(t *testing.T) {
 		t.Skip()
 	}
 	rr := rand.New(rand.NewSource(int64(vIntOf(in["seed"]))))
-	const K = 8
+	const K = 32
 	ks := make([][]byte, K)
 	for i := range ks {
 		ks[i] = make([]byte, 32)
